@@ -62,7 +62,9 @@ PROPS["C02"] = {
                  "(2-bit integers), integer entry price; 10 cells = pre-side x fill-side x {reduce, exact close, flip}; instantiation "
                  "Position<QuoteAsset, InstrumentIndex>; unwind 26",
         "thorough": "the same cells with 3-bit integers (1..7) and a rational average entry price n/d, d <= 2; plus a direct two-fill history from flat "
-                    "(2-bit values, both sides symbolic) checking the telescoped identity end to end",
+                    "(2-bit values, both sides symbolic) and three- and four-fill histories from flat (prices / quantities 1..3, fees 0..1, sides symbolic: repeated flips reachable; the four-fill "
+                    "query takes ~26 min) "
+                    "checking the telescoped identity end to end",
     },
     "outside": ["28-digit rounding of rust_decimal (the property says 'up to decimal rounding'); magnitudes beyond the stated bit-widths",
                 "InstrumentState::update_from_trade wiring (covered under C15 / engine-level harnesses)"],
